@@ -126,7 +126,7 @@ def key(x):
 def arith_trees(depth, flt, leaves=('a', 'b'), neg=True, symmul=True):
     """arithmetic (non-boolean) tensor-valued trees up to `depth`.
     flt: float grammar (/, sqrt, symbolic-scalar multiplication); otherwise the SYM-safe integer grammar
-    (no tensor*tensor, no division, multiplication only by a small constant)."""
+    (no tensor*tensor, no division; multiplication by a small constant lives in the family int-kmul)."""
     level = {0: [T_(n) for n in leaves]}
     scal = [S_]
     for d in range(1, depth + 1):
@@ -148,8 +148,6 @@ def arith_trees(depth, flt, leaves=('a', 'b'), neg=True, symmul=True):
                 new += [bn('add', x, sc), bn('add', sc, x), bn('sub', x, sc), bn('sub', sc, x)]
                 if flt:
                     new += [bn('mul', x, sc), bn('mul', sc, x), bn('div', x, sc), bn('div', sc, x)]
-            if not flt:
-                new += [bn('mul', x, K_(3)), bn('mul', K_(-5), x)]
         level[d] = new
     out = []
     seen = set()
@@ -317,7 +315,7 @@ def cases(tier, seed):
             cfg0 = Cfg(isa, std, pipe='P0'); cfg1 = Cfg(isa, std)
             for ty in (FLT, DBL, INT, I64L):
                 flt = ty.kind == 'float'
-                cfg = cfg0 if flt else cfg1
+                cfg = cfg0      # P0 also for SYM: -O1 instcombine rewrites e.g. (a+b)-(b+s) into a-s and the adder equivalence is SAT-hard
                 mode = 'UF' if flt else 'SYM'
                 trees = FT1 if flt else IT1
                 sizes = sizes_for(isa, ty)
@@ -349,7 +347,8 @@ def cases(tier, seed):
                     if not flt and form == 'div': continue
                     for n in sample(rng, sizes, 3 if thorough else 1) + [2 * V + 1]:
                         if not flt and form == 'mul':
-                            out.append(scalar_rhs_case(ty, form, n, cfg, mode, const=rng.choice([3, -7, 2])))
+                            if (ty is INT and isa not in ('sse2', 'scalar')) or isa == 'avx512':    # native vector multiply only (see int-kmul)
+                                out.append(scalar_rhs_case(ty, form, n, cfg, mode, const=rng.choice([3, 5, 2])))
                         else:
                             out.append(scalar_rhs_case(ty, form, n, cfg, mode))
                 if flt:
@@ -367,6 +366,13 @@ def cases(tier, seed):
                     for i, n in enumerate([x for x in ns if x >= 1]):
                         t = NT[i % len(NT)] if i else NT[0]
                         out.append(expr_case('neg-int', ty, t, ['set', 'add', 'sub'][i % 3] if i else 'set', n, cfg, mode, 'own' if i % 2 == 0 else 'ctor' if i % 3 else 'own'))
+                    # ---- multiplication by a small constant (real multiplier in SAT: few, small cases; the emulated
+                    #      multiplies -- int32 under SSE2, int64 below AVX-512 -- only on the shortest sizes)
+                    native = (ty is INT and isa not in ('sse2', 'scalar')) or isa == 'avx512'
+                    KT = [bn('mul', T_('a'), K_(3)), bn('mul', K_(5), T_('a')), bn('add', bn('mul', T_('a'), K_(3)), T_('b')), bn('mul', bn('sub', T_('a'), T_('b')), K_(3))]
+                    kn = [V, V + 1, 2 * V + 1] if native else ([V + 1] if ty is INT else [])
+                    for i, n in enumerate(kn):
+                        out.append(expr_case('int-kmul', ty, KT[(i + len(out)) % len(KT)], ['set', 'add', 'sub'][i % 3], n, cfg, mode, 'own'))
                     # ---- pure products in ATOMS mode
                     ok64 = ty is INT or isa == 'avx512'     # the 32-bit-halves emulation of the 64-bit multiply leaves the typing
                     if ok64:
